@@ -95,6 +95,25 @@ func runC19(c *Ctx) {
 	if c.thorough {
 		nGen = 20000
 	}
+	// resource type names are case-sensitive everywhere a name is turned into a type
+	for _, t := range types {
+		for _, v := range []string{strings.ToLower(t[:1]) + t[1:], strings.ToLower(t), strings.ToUpper(t), t + "s", t[:len(t)-1]} {
+			if v == t {
+				continue
+			}
+			_, e1 := resource.NewType(v)
+			_, e2 := resource.NewIdentity(v, "1", "")
+			_, e3 := reference.IdentityFromRelativeURI(v + "/1")
+			isOther := false
+			for _, o := range types {
+				isOther = isOther || o == v
+			}
+			if isOther {
+				continue
+			}
+			c.Law(e1 != nil && e2 != nil && e3 != nil, "C19/type-name-accepted", "a string that is not a resource type name is rejected, never rewritten into one", v, fmt.Sprint(e1 == nil, e2 == nil, e3 == nil))
+		}
+	}
 	for _, t := range types {
 		add(t + "/" + mkID(5))
 		add("http://example.org/fhir/" + t + "/" + mkID(5) + "/_history/" + mkID(2))
@@ -169,6 +188,17 @@ func runC19(c *Ctx) {
 				c.Law(got == want, "C19/identity-literal-agree", "the identity of an untyped reference is the identity its literal parse finds (rejected strings have none)", fmt.Sprintf("%q", u), got+" vs literal "+want)
 			}
 		}
+		// the relative-URI parser: whatever it accepts formats back to the very same string (no silent rewriting of the
+		// type name, the id or the version)
+		{
+			var rid *resource.Identity
+			var rerr error
+			_, rpan, _ := safeErr(func() error { rid, rerr = reference.IdentityFromRelativeURI(u); return nil })
+			c.Law(!rpan, "C19/parse-panics", "rejected strings produce an error, never a crash", fmt.Sprintf("IdentityFromRelativeURI(%q)", u), "panic")
+			if !rpan && rerr == nil && rid != nil && !strings.Contains(u, "//") && !strings.HasSuffix(u, "/") {
+				c.Law(rid.PreferRelativeVersionedURIString() == u, "C19/format-canonical", "formatting an accepted reference without redundant slashes returns the input", fmt.Sprintf("IdentityFromRelativeURI(%q)", u), rid.PreferRelativeVersionedURIString())
+			}
+		}
 		if pan || err != nil {
 			continue
 		}
@@ -222,6 +252,21 @@ func runC19(c *Ctx) {
 				back, berr := reference.LiteralInfoFromURI(l2.URIString())
 				good := ok1 == ok2 && t1 == t2 && (i1 == nil) == (i2 == nil) && (i1 == nil || i1.Equal(i2)) && l2.ServiceBaseURL() == nb && berr == nil && litOut(back, nil, false) == litOut(l2, nil, false)
 				c.Law(good, "C19/rebase", "a literal placed under another service base URL keeps its type and identity, and formatting it and parsing it back returns the same components", fmt.Sprintf("%s under %q", s, nb), litOut(l2, nil, false)+" reparsed "+litOut(back, berr, false))
+			}
+		}
+		// the strong reference with and without its `type` element, against the URI form: the same resource type
+		{
+			bare := proto.Clone(strong).(*dtpb.Reference)
+			bare.Type = nil
+			lb, eb := reference.LiteralInfoOf(bare)
+			if eb == nil && lw != nil && ls != nil {
+				tb, okb := lb.Type()
+				tw, okw := lw.Type()
+				ts, oks := ls.Type()
+				c.Law(okb == okw && tb == tw && oks == okw && ts == tw, "C19/strong-weak-info", "a typed reference and the untyped URI reference naming the same resource parse to equal information", s+" (resource type of the strong form, with and without Reference.type, and of the URI form)", fmt.Sprintf("%q/%v %q/%v %q/%v", tb, okb, ts, oks, tw, okw))
+				c.Law(litOut(lb, nil, false) == litOut(lw, nil, false), "C19/strong-weak-info", "a typed reference and the untyped URI reference naming the same resource parse to equal information", s+" (strong form without Reference.type)", litOut(lb, nil, false))
+			} else if eb != nil {
+				c.Law(false, "C19/strong-weak-info", "a typed reference and the untyped URI reference naming the same resource parse to equal information", s+" (strong form without Reference.type)", eb.Error())
 			}
 		}
 		c.Law(reference.Is(strong, weak) && reference.Is(weak, strong), "C19/strong-weak-is", "strong and weak references to the same resource compare as the same reference", s, "")
@@ -326,7 +371,7 @@ func runC19(c *Ctx) {
 		}
 	}
 	// canonical
-	canon := []string{"http://example.com/fhir/ValueSet/my%20set|1.0.0", "http://x/%41|v#f", "http://x/100%|1", "http://x/a%sb#frag", "http://x/%d|1#f", "http://x/%v#f", "urn:x%25y|1.0", "http://x/%!s|1", "", "#frag", "|1", "http://x", "http://x|1.0", "http://x#f", "http://x|1.0#f", "http://x|a|b", "http://x#f|1", "http://x|", "http://x#", "urn:x|v_1-2.3#a.b", "x|1#" + mkID(64), "x|1#" + mkID(65)}
+	canon := []string{"http://hl7.org/fhir/", "https://example.org:8443/base/fhir/|4.0.1", "http://x/#f", "http://x//|1#f", "urn:x:/", "http://example.com/fhir/ValueSet/my%20set|1.0.0", "http://x/%41|v#f", "http://x/100%|1", "http://x/a%sb#frag", "http://x/%d|1#f", "http://x/%v#f", "urn:x%25y|1.0", "http://x/%!s|1", "", "#frag", "|1", "http://x", "http://x|1.0", "http://x#f", "http://x|1.0#f", "http://x|a|b", "http://x#f|1", "http://x|", "http://x#", "urn:x|v_1-2.3#a.b", "x|1#" + mkID(64), "x|1#" + mkID(65)}
 	for i := 0; i < 300; i++ {
 		u := Pick(c.rng, []string{"http://example.org/sd/" + mkID(4), "urn:oid:1.2." + mkID(2), mkID(5)})
 		if c.rng.Bool() {
